@@ -200,6 +200,40 @@ func (c *Ctx) c19Whitelist() {
 		if n == 0 {
 			r.Unknown("C19.whitelist", name, "arbitrary map", "-", "no filtered copy into an arbitrary map found")
 		}
+		// what is handed on as the extra fields is that filtered map, not the submitted one
+		for _, b := range rd.Blocks {
+			for _, in := range b.Instrs {
+				st, ok := in.(*ssa.Store)
+				if !ok {
+					continue
+				}
+				fa, ok := st.Addr.(*ssa.FieldAddr)
+				if !ok || fieldName(fa) != "Arbitrary" {
+					continue
+				}
+				okSrc := true
+				seen := map[ssa.Value]bool{}
+				var walk func(v ssa.Value, d int)
+				walk = func(v ssa.Value, d int) {
+					if seen[v] || d > 4 {
+						return
+					}
+					seen[v] = true
+					switch x := v.(type) {
+					case *ssa.MakeMap:
+					case *ssa.Phi:
+						for _, e := range x.Edges {
+							walk(e, d+1)
+						}
+					case *ssa.Const:
+					default:
+						okSrc = false
+					}
+				}
+				walk(st.Val, 0)
+				r.Check(okSrc, "C19.whitelist", name, "Arbitrary = filtered map", posf(c, st), "the map built by the whitelist filter", "the extra fields handed to the modules are not the map the whitelist filter built ("+SafeString(st.Val)+"): every submitted field, the clear-text password among them, reaches PutArbitrary")
+			}
+		}
 	}
 	if fn := c.P.FuncOpt("(*ab/register.Register).Post"); fn != nil {
 		for _, pc := range c.userCalls(fn, "PutArbitrary") {
